@@ -12,6 +12,7 @@ use crate::scen::pop::{lex, Ind, Obj};
 use rosomaxa::algorithms::rl::{SlotAction, SlotFeedback, SlotMachine};
 use rosomaxa::population::{Elitism, HeuristicPopulation, SelectionPhase};
 use rosomaxa::prelude::*;
+use rosomaxa::hyper::{HeuristicDiversifyOperator, HeuristicSearchOperator};
 use rosomaxa::termination::*;
 use rosomaxa::utils::{DefaultDistributionSampler, DistributionSampler, Parallelism, Timer};
 use serde_json::{json, Value};
@@ -225,6 +226,129 @@ fn dynamic_family(seed: u64, tier: Tier) -> (Vec<(String, String)>, u64, Value) 
         }
     });
     (issues, gens as u64 + rows, json!({"family": "dynamic-selective", "generations": gens, "telemetry_rows": rows}))
+}
+
+// ------------------------------------------------------------------------------------------------ (d)
+
+/// Operator of the hierarchical family: the child is the parent's fitness vector with every layer scaled by a seeded
+/// factor (some layers get better, others worse), so that "better than the parent but far behind the best known in a
+/// layer of higher priority" and the other sign combinations all occur.
+struct ScaleOperator {
+    factors: Vec<Vec<f64>>,
+    next: Mutex<usize>,
+    id: Mutex<u64>,
+}
+
+impl HeuristicSearchOperator for ScaleOperator {
+    type Context = HCtx;
+    type Objective = Obj;
+    type Solution = Ind;
+    fn search(&self, _: &HCtx, parent: &Ind) -> Ind {
+        let mut next = self.next.lock().unwrap();
+        let f = &self.factors[*next % self.factors.len()];
+        *next += 1;
+        let mut id = self.id.lock().unwrap();
+        *id += 1;
+        Ind { id: *id, fit: parent.fit.iter().zip(f.iter().cycle()).map(|(x, k)| x * k).collect(), weights: vec![] }
+    }
+}
+
+impl HeuristicDiversifyOperator for ScaleOperator {
+    type Context = HCtx;
+    type Objective = Obj;
+    type Solution = Ind;
+    fn diversify(&self, ctx: &HCtx, parent: &Ind) -> Vec<Ind> {
+        vec![self.search(ctx, parent)]
+    }
+}
+
+/// The real `DynamicSelective` driving harness operators over a lexicographic objective of 1..4 layers, with the real
+/// elitism population behind the context; judged through its own telemetry (experimental mode).
+fn hierarchical_family(seed: u64, tier: Tier) -> (Vec<(String, String)>, u64, Value) {
+    use rosomaxa::hyper::{DynamicSelective, HyperHeuristic};
+    let mut p = Prng::derive(seed, "hierarchical");
+    let gens = match tier {
+        Tier::Quick => p.usize(5, 80),
+        Tier::Thorough => p.usize(5, 400),
+    };
+    let layers = p.usize(1, 4);
+    let random: Arc<dyn Random> = Arc::new(DefaultRandom::default());
+    let env = Environment::new(random.clone(), None, Parallelism::new_with_cpus(2), Arc::new(|_: &str| {}), true);
+    let mut ctx = HCtx {
+        objective: Obj,
+        population: Elitism::new(Arc::new(Obj), random.clone(), p.usize(2, 6), p.usize(1, 4)),
+        stats: HeuristicStatistics::default(),
+        env: Environment::new(random.clone(), None, Parallelism::new_with_cpus(2), Arc::new(|_: &str| {}), true),
+        state: HashMap::new(),
+        phase: 1,
+    };
+    let n_ops = p.usize(1, 4);
+    let names: Vec<String> = (0..n_ops).map(|i| format!("op{i}")).collect();
+    let mut make = |p: &mut Prng| {
+        let factors = (0..p.usize(1, 6))
+            .map(|_| (0..layers).map(|_| *p.pick(&[1.0, 1.0, 0.999, 0.9, 0.5, 0.01, 1.001, 1.1, 2.0, 100.0, 0.0])).collect())
+            .collect();
+        Arc::new(ScaleOperator { factors, next: Mutex::new(0), id: Mutex::new(1_000_000) })
+    };
+    let search: Vec<(Arc<dyn HeuristicSearchOperator<Context = HCtx, Objective = Obj, Solution = Ind> + Send + Sync>, String, Float)> =
+        names.iter().map(|n| (make(&mut p) as Arc<dyn HeuristicSearchOperator<Context = HCtx, Objective = Obj, Solution = Ind> + Send + Sync>, n.clone(), *p.pick(&[0.5, 1.0, 2.0]))).collect();
+    let diversify: Vec<Arc<dyn HeuristicDiversifyOperator<Context = HCtx, Objective = Obj, Solution = Ind> + Send + Sync>> =
+        vec![make(&mut p) as Arc<dyn HeuristicDiversifyOperator<Context = HCtx, Objective = Obj, Solution = Ind> + Send + Sync>];
+    let mut heuristic = DynamicSelective::<HCtx, Obj, Ind>::new(search, diversify, &env);
+    for i in 0..p.usize(1, 5) {
+        let fit: Vec<f64> = (0..layers).map(|_| *p.pick(&[0.0, 1.0, 10.0, 1000.0, 1e6]) * (0.5 + p.f64())).collect();
+        ctx.on_initial(Ind { id: i as u64, fit, weights: vec![] }, Timer::start());
+    }
+    let mut issues: Vec<(String, String)> = vec![];
+    for g in 0..gens {
+        ctx.phase = if g * 3 < gens { 1 } else { 2 };
+        let parents: Vec<Ind> = ctx.selected().map(|i| i.deep_copy()).collect();
+        if parents.is_empty() {
+            break;
+        }
+        let children = if p.chance(0.15) { heuristic.diversify_many(&ctx, parents.iter().collect()) } else { heuristic.search_many(&ctx, parents.iter().collect()) };
+        if children.iter().any(|c| c.fit.iter().any(|x| !x.is_finite())) {
+            break;
+        }
+        ctx.on_generation(children, 0., Timer::start());
+    }
+    let telemetry = format!("{heuristic}");
+    let mut rows = 0u64;
+    // documented: [0, 2] per distance, amplified by the number of layers, best discovery doubled, x (0.5, 3] for speed
+    let upper = 3.0 * ((layers as f64 + 1.0) + (layers as f64 + 1.0) * 2.0) + 1e-9;
+    sys::monitor(|| {
+        let mut section = "";
+        for line in telemetry.lines() {
+            match line {
+                "search:" | "heuristic:" => {
+                    section = line;
+                    continue;
+                }
+                _ if line.starts_with("name,") || line.starts_with("generation,") || line.starts_with("TELEMETRY") => continue,
+                _ => {}
+            }
+            let cols: Vec<&str> = line.split(',').collect();
+            rows += 1;
+            if section == "search:" && cols.len() == 6 {
+                let reward: f64 = cols[2].parse().unwrap_or(f64::NAN);
+                if !reward.is_finite() || reward < 0.0 || reward > upper {
+                    issues.push(("reward-out-of-range".into(), format!("operator {} generation {}: reward {} outside of [0, {upper}] with {layers} objective layers", cols[0], cols[1], cols[2])));
+                }
+                if !names.iter().any(|n| n == cols[0]) {
+                    issues.push(("unknown-operator".into(), format!("telemetry names operator '{}' which is not configured", cols[0])));
+                }
+            } else if section == "heuristic:" && cols.len() == 8 {
+                let vals: Vec<f64> = cols[3..7].iter().map(|c| c.parse().unwrap_or(f64::NAN)).collect();
+                if vals.iter().any(|v| !v.is_finite()) || vals[0] <= 0.0 || vals[1] <= 0.0 || vals[3] < 0.0 {
+                    issues.push(("slot-params".into(), format!("generation {} operator {}: alpha,beta,mu,v = {:?}", cols[0], cols[2], vals)));
+                }
+            }
+            if issues.len() > 8 {
+                return;
+            }
+        }
+    });
+    (issues, gens as u64 + rows, json!({"family": "dynamic-selective-hierarchical", "generations": gens, "layers": layers, "operators": n_ops, "telemetry_rows": rows}))
 }
 
 // ------------------------------------------------------------------------------------------------ (c)
@@ -446,8 +570,8 @@ pub struct RlScenario;
 
 fn run(seed: u64, tier: Tier) -> CaseRecord {
     let mut spec = RunSpec::from_seed(seed);
-    let family = seed % 3;
-    if family == 1 {
+    let family = seed % 4;
+    if family == 1 || family == 3 {
         // operator durations of 0 (frozen), tiny, or seconds
         spec.clock_policy = [ClockPolicy::Frozen, ClockPolicy::Fast, ClockPolicy::Slow, ClockPolicy::Bursty][(seed / 3 % 4) as usize];
     } else if family == 2 {
@@ -457,6 +581,7 @@ fn run(seed: u64, tier: Tier) -> CaseRecord {
         let (issues, n, sample) = match family {
             0 => slot_family(seed, tier),
             1 => dynamic_family(seed, tier),
+            3 => hierarchical_family(seed, tier),
             _ => termination_family(seed, tier),
         };
         sys::monitor(|| (issues.clone(), n, sample.clone()))
@@ -465,7 +590,7 @@ fn run(seed: u64, tier: Tier) -> CaseRecord {
     if out.arena_live != 0 {
         rec.taint = true;
     }
-    let fam = ["slot_machine", "dynamic_selective", "terminations"][family as usize];
+    let fam = ["slot_machine", "dynamic_selective", "terminations", "dynamic_selective_hierarchical"][family as usize];
     rec.count(&format!("family.{fam}"), 1);
     rec.count(&format!("clock.policy.{}", spec.clock_policy.name()), 1);
     match out.result {
